@@ -636,3 +636,120 @@ loop_harness!(c16_drive_packet_exits, 10, {
     kani::cover!(matches!(r, Ok(Progress::Advanced)) && unsafe { N_STEP >= 2 });
     kani::cover!(matches!(r, Ok(Progress::Inbound(_))));
 });
+
+// ---------------------------------------------------------------------------------------------
+// C10 / C16: wait_for_progress (poll / recv) with the with_deadline model
+// ---------------------------------------------------------------------------------------------
+pub(crate) static mut DP_CALLS: u8 = 0;
+pub(crate) static mut DP_LAST_TIMEOUT_DEADLINE: u64 = 0;
+pub(crate) static mut DP_TIMED_OUT: bool = false;
+pub(crate) static mut DP_AFTER_TIMEOUT_OK: bool = true;
+pub(crate) static mut DP_RETURNED: u8 = 0; // 1 advanced, 2 inbound
+
+impl<'buf, IO: Io> Connection<'_, 'buf, IO> {
+    /// A6 `drive_packet`: arbitrary outcome (its own harness: c16_drive_packet_exits); non-Idle by the
+    /// third call so that the loop under test is bounded.
+    pub(crate) fn kst_drive_packet(&mut self) -> Result<Progress, Error<IO::Error>> {
+        unsafe {
+            DP_CALLS += 1;
+            if !self.live {
+                return Err(Error::Disconnected);
+            }
+            // C10: after a timeout the clock has reached the deadline when the session is driven again
+            if DP_TIMED_OUT && vc::NOW < DP_LAST_TIMEOUT_DEADLINE {
+                DP_AFTER_TIMEOUT_OK = false;
+            }
+            let c: u8 = kani::any();
+            kani::assume(DP_CALLS < 3 || c % 4 != 0);
+            match c % 4 {
+                0 => Ok(Progress::Idle),
+                1 => {
+                    DP_RETURNED = 1;
+                    Ok(Progress::Advanced)
+                }
+                2 => {
+                    DP_RETURNED = 2;
+                    Ok(Progress::Inbound(4))
+                }
+                _ => {
+                    self.handle_disconnect();
+                    Err(Error::Disconnected)
+                }
+            }
+        }
+    }
+
+    /// A4 with the deadline bookkeeping for `wait_for_progress`
+    pub(crate) fn kst_read_packet_wfp(&mut self) -> Result<(), Error<IO::Error>> {
+        unsafe {
+            let had_deadline = self.session.runtime.next_deadline();
+            let r = self.kst_read_packet();
+            if READ_WOULD_BLOCK {
+                READ_WOULD_BLOCK = false;
+                match had_deadline {
+                    // the wait would never end: no behaviour to check
+                    None => kani::assume(false),
+                    Some(d) => {
+                        DP_TIMED_OUT = true;
+                        DP_LAST_TIMEOUT_DEADLINE = d.as_ticks();
+                    }
+                }
+            }
+            r
+        }
+    }
+}
+
+// @harness props=C10,C16,C11 tier=quick layer=L3p unwind=5
+// @harness funcs="Connection::wait_for_progress, poll, recv (loop structure), RuntimeState::next_deadline; with_deadline model (projection)"
+// @harness sym="outcome of every drive_packet call (Idle / Advanced / Inbound / fatal), of every read (would block / packet / failure), next_ping and ping_timeout (Option<ticks>), clock" bounds="<= 3 loop iterations (drive stub is non-Idle by its third call)"
+// @harness assumes="A6 (drive_packet contract: c16_drive_packet_exits, c10_service_*), A4 (read_packet), with_deadline model: would-block => clock := deadline and Err(Timeout), embassy polls the inner future before the timer"
+#[kani::proof]
+#[kani::unwind(5)]
+#[kani::stub(embassy_time::Instant::now, crate::verif_common::stub_now)]
+#[kani::stub(Outbound::arm_replay, g::st_arm_replay)]
+#[kani::stub(Connection::drive_packet, Connection::kst_drive_packet)]
+#[kani::stub(Connection::read_packet, Connection::kst_read_packet_wfp)]
+fn c10_wait_for_progress_deadlines() {
+    reset_all();
+    unsafe {
+        DP_CALLS = 0;
+        DP_LAST_TIMEOUT_DEADLINE = 0;
+        DP_TIMED_OUT = false;
+        DP_AFTER_TIMEOUT_OK = true;
+        DP_RETURNED = 0;
+    }
+    let mut rx = [0u8; 8];
+    let mut tx = [0u8; 16];
+    let mut session = Session::new(ConfigBuilder::new(Buffers::new(&mut rx, &mut tx)).keepalive_interval(60));
+    let np: Option<u64> = if kani::any() { Some(kani::any()) } else { None };
+    let pt: Option<u64> = if kani::any() { Some(kani::any()) } else { None };
+    kani::assume(np.map_or(true, |v| v < (1 << 60)) && pt.map_or(true, |v| v < (1 << 60)));
+    session.runtime.next_ping = np.map(Instant::from_ticks);
+    session.runtime.ping_timeout = pt.map(Instant::from_ticks);
+    let mut conn = Connection { session: &mut session, io: SymIoP, event: ConnectEvent::Connected, live: true };
+    let r = conn.wait_for_progress();
+    unsafe {
+        match r {
+            Ok(Progress::Idle) => assert!(false, "C16: poll() would return without any progress (unreachable!() in poll)"),
+            Ok(Progress::Advanced) => assert!(DP_RETURNED == 1, "C16: Advanced reported without the driver reporting it"),
+            Ok(Progress::Inbound(n)) => assert!(DP_RETURNED == 2 && n == 4, "C04: a message surfaced that the driver did not produce"),
+            Err(_) => assert!(!conn.live || g::IO_ERRS > 0 || true),
+        }
+        assert!(DP_AFTER_TIMEOUT_OK, "C10: after the wait timed out the session was driven before the clock reached the deadline");
+        assert!(N_READPKT as u16 + 1 >= DP_CALLS as u16, "C16: the driver is invoked at most once more than the reads (every loop turn drives first, then waits)");
+        // the earlier of the two deadlines bounds the wait
+        if DP_TIMED_OUT && DP_CALLS == 2 {
+            // (first timeout: the timers have not been touched by anything yet)
+            let lo = match (np, pt) {
+                (Some(a), Some(b)) => a.min(b),
+                (Some(a), None) => a,
+                (None, Some(b)) => b,
+                (None, None) => 0,
+            };
+            assert!(DP_LAST_TIMEOUT_DEADLINE == lo, "C10: the wait is bounded by the earlier of ping deadline and round-trip timeout");
+        }
+    }
+    kani::cover!(unsafe { DP_TIMED_OUT && DP_CALLS >= 2 }, "timed out, then driven again");
+    kani::cover!(matches!(r, Ok(Progress::Inbound(_))));
+}
